@@ -43,3 +43,33 @@ func init() {
 		},
 	})
 }
+
+func init() {
+	register(&propDef{
+		ID: "C18",
+		Explain: "Rules over config.Load and everything first-party it reaches: the C01 safety rule set incl. the two panic(\"BUG\") sites shown unreachable by constant propagation of the version parameter over all call chains, and the zone split indices bounded by the LastIndexByte fact (CFG.NOPANIC); every abstract exit of getListenAddress, explored once per protocol version, is compared with the table {empty host → wildcard of the version, unparseable → error, wrong family → error, empty port → 67/547 by constant value, bad port → error, zone passed through} (CFG.ADDR); parseListen rejects listen+interface on every path, uses defaults only when neither is set, and otherwise appends exactly one (or the multicast expansion of one) address per configured item, aborting on parse errors (CFG.LISTEN, per-iteration obligations); getPlugins/Load/parseConfig error and success shapes (CFG.PLUGINS); parsePlugins order (C13.CHAIN.PARSE-ORDER).",
+		Trusted: trustedBase,
+		Assume:  []string{"YAML parsing and cast conversions (viper/cast/yaml, including their own panics)", "net.SplitHostPort's string grammar beyond bounds safety", "interface enumeration"},
+		Run: func(c *Ctx) {
+			ro := FindRoots(c.P, c.R)
+			load := c.P.Func("config", "", "Load")
+			if load == nil {
+				c.R.Fatalf("ANCHOR-UNRESOLVED: config.Load")
+				return
+			}
+			pred, fns := ReachFirstParty(c.P, []*ssa.Function{load})
+			runSafety(c, "C18.CFG.", fns, pred, "NILPATH", "NILSRC", "ASSERT", "BOUNDS", "MAPWRITE", "FUNCNIL", "ARITH")
+			rulePanic(c, "C18.CFG.", fns, pred, ro)
+			ruleCfgAddr(c, "C18.CFG.ADDR")
+			ruleCfgListen(c, "C18.CFG.LISTEN")
+			ruleCfgPlugins(c, "C18.CFG.PLUGINS")
+			ruleParseOrder(c, "C18.CFG.PLUGINS")
+			c.R.Floor("C18.CFG.PANIC", 2)
+			c.R.Floor("C18.CFG.BOUNDS", 2)
+			c.R.Floor("C18.CFG.ADDR", 3)
+			c.R.Floor("C18.CFG.LISTEN", 1)
+			c.R.Floor("C18.CFG.PLUGINS", 4)
+			c.R.Note("config scope: %d functions reachable from config.Load", len(fns))
+		},
+	})
+}
